@@ -1,8 +1,8 @@
 from vpkg.core import Unit
 from vpkg import csrc
 _t = csrc.Tree()
-_st = [f.name for f in _t.by_file["/repo/src/state/bidib_state.c"]]
-_g = [f.name for f in _t.by_file["/repo/src/highlevel/bidib_highlevel_getter.c"]]
+_st = [f.name for f in _t.by_file[csrc.REPO + "/src/state/bidib_state.c"]]
+_g = [f.name for f in _t.by_file[csrc.REPO + "/src/highlevel/bidib_highlevel_getter.c"]]
 UNITS = [
     Unit(name="C14.dcc_addr_in_use", src="units/C14/uniq.c", defines=["VP_H_IN_USE"], functions=["bidib_state_dcc_addr_in_use"], props=["C14"], no_dfcc=True,
          kind="bounded", bound="2 boards x (<= 2 DCC points, <= 2 DCC signals) + <= 2 trains, all addresses arbitrary; loops unwound completely for that size",
